@@ -202,6 +202,53 @@ theorem findSpec_nodup (ps : List (List Step)) (hwf : ∀ p ∈ ps, StepsWF p) :
     rw [← hab] at h6
     simp only [] at h6; omega
 
+/-- Order of `find`'s output: by end position, and for equal end positions by increasing
+start (= decreasing length). -/
+def ScopeLt (a b : Scope) : Prop := a.stop < b.stop ∨ (a.stop = b.stop ∧ a.start < b.start)
+
+theorem outSpec_lex (ps : List (List Step)) (hwf : ∀ p ∈ ps, StepsWF p) (i : Nat) (n : Label) :
+    (outSpec ps i n).Pairwise ScopeLt := by
+  simp only [outSpec, List.pairwise_map]
+  have h := (neTails_pairwise n).filter (isEnd ps)
+  refine List.Pairwise.imp_of_mem ?_ h
+  intro a b ha hb hab
+  simp only [List.mem_filter] at ha hb
+  have hane := ((mem_neTails a n).1 ha.1).1
+  have hbne := ((mem_neTails b n).1 hb.1).1
+  right
+  refine ⟨rfl, ?_⟩
+  simp only []
+  rw [sizeOf_eq ps hwf a (isEnd_isNode ha.2) hane, sizeOf_eq ps hwf b (isEnd_isNode hb.2) hbne]
+  obtain ⟨⟨u, hu⟩, hlt⟩ := hab
+  have hune : u ≠ [] := by
+    intro h; subst h; simp at hu; subst hu; omega
+  have := encodeLabel_length_pos hune
+  rw [← hu, encodeLabel_append, List.length_append]
+  omega
+
+theorem findSpec_lex (ps : List (List Step)) (hwf : ∀ p ∈ ps, StepsWF p) :
+    ∀ (steps : List Step) (seen : Label) (i : Nat), StepsWF steps → i = (encodeLabel seen).length →
+    (findSpec ps steps seen i).Pairwise ScopeLt := by
+  intro steps
+  induction steps with
+  | nil => intro seen i _ _; simp [findSpec]
+  | cons st rest ih =>
+    intro seen i hw hi
+    obtain ⟨r, sz⟩ := st
+    have hst := hw (r, sz) (by simp)
+    have hrest : StepsWF rest := fun x hx => hw x (by simp [hx])
+    simp only [] at hst
+    have hi' : i + sz = (encodeLabel (seen ++ [r])).length := by
+      rw [encodeLabel_append, List.length_append, hi, hst.1]
+      simp [encodeLabel]
+    simp only [findSpec, List.pairwise_append]
+    refine ⟨outSpec_lex ps hwf _ _, ih (seen ++ [r]) (i + sz) hrest hi', ?_⟩
+    intro a ha b hb
+    simp only [outSpec, List.mem_map] at ha
+    obtain ⟨m, _, rfl⟩ := ha
+    obtain ⟨_, _, _, _, _, _, _, _, h6⟩ := findSpec_mem ps hwf rest (seen ++ [r]) (i + sz) hrest hi' b hb
+    left; simp only []; omega
+
 /-! ### Match and FindAll on a built trie -/
 
 theorem match_spec (pats : List (List Nat)) (text : List Nat) (t : Trie)
